@@ -142,6 +142,30 @@ pub fn judge(case: &Value, salt: usize) -> Option<Value> {
                 }
             }
         }
+        // ---- the packed record read back byte by byte and rebuilt from what the read words returned (numbers that come
+        // from binary input carry tags): the same bits again
+        if packed.len() % 8 == 0 && packed.len() > 0 {
+            let nb = packed.len() / 8;
+            let reads: Vec<&str> = (0..nb).map(|i| if i % 3 == 2 { "1 bytes" } else { "u8" }).collect();
+            let src = format!("{} open-bitstr [ {} ] >bitstr", prog_pack, reads.join(" "));
+            let mut xs = fresh();
+            match xs.eval(&src) {
+                Err(e) => why.push(format!("`{}` failed: {}", src, e)),
+                Ok(()) => {
+                    let got: Option<Vec<u8>> = xs.get_data(0).and_then(|c| c.bitstr().ok().map(|b| b.bits().collect()));
+                    if got.as_deref() != Some(&packed[..]) { why.push(format!("`{}`: rebuilt {:?}, expected {:?}", src, got, packed)); }
+                }
+            }
+            let src = format!("{} open-bitstr [ [ {} ] {} ] >bitstr", prog_pack, reads[..nb / 2].join(" "), reads[nb / 2..].join(" "));
+            let mut xs = fresh();
+            match xs.eval(&src) {
+                Err(e) => why.push(format!("`{}` failed: {}", src, e)),
+                Ok(()) => {
+                    let got: Option<Vec<u8>> = xs.get_data(0).and_then(|c| c.bitstr().ok().map(|b| b.bits().collect()));
+                    if got.as_deref() != Some(&packed[..]) { why.push(format!("`{}`: rebuilt {:?}, expected {:?}", src, got, packed)); }
+                }
+            }
+        }
         // ---- interception switched on again between emit calls (an idempotent request): nothing emitted so far is lost
         if n >= 2 {
             let mut xs = fresh();
